@@ -2,6 +2,7 @@
 #define VK_MAIN
 #include "../kit/viewprog.hpp"
 #include <boost/multi/adaptors/fftw.hpp>
+#include <boost/multi/adaptors/fft.hpp>
 #include <boost/multi/array_ref.hpp>
 #include <complex>
 using namespace vk; namespace fftw = multi::fftw;
@@ -49,12 +50,12 @@ int main(int argc, char** argv) {
 		static bool init = false; if(!init) { init = true; auto& a = st().args; for(std::size_t i = 0; i + 1 < a.size(); ++i) if(a[i] == "--maxext") MAXEXT = std::atoi(a[i + 1].c_str()); }
 		Rng& g = c.rng; std::vector<L> n; for(int d = 0; d < D; ++d) n.push_back(g.in(1, d == D - 1 ? MAXEXT + 1 : MAXEXT)); if(g.chance(1, 5)) n[std::size_t(g.below(D))] = 1;
 		std::array<bool, std::size_t(D)> which{}; std::string ws; for(int d = 0; d < D; ++d) { which[std::size_t(d)] = g.chance(1, 2); ws += which[std::size_t(d)] ? "T" : "F"; }
-		int const sign = g.chance(1, 2) ? +1 : -1; int const li = int(g.below(NLK)), lo = int(g.below(NLK)); int const mode = int(g.below(5));  // 0,1 out-of-place; 2 in-place overload; 3 forward then backward; 4 a plan made for one pair of arrays executed on another pair of the same layouts
+		int const sign = g.chance(1, 2) ? +1 : -1; int const li = int(g.below(NLK)), lo = int(g.below(NLK)); int const mode = int(g.below(6));  // 5: the lazy range fft::dft(which, in, dir) of adaptors/fft.hpp constructed into / assigned to an owning array; 0,1 out-of-place; 2 in-place overload; 3 forward then backward; 4 a plan made for one pair of arrays executed on another pair of the same layouts
 		MV lm = MV::root(n); L const N = lm.n(); std::vector<C> x(static_cast<std::size_t>(N)); for(auto& v : x) v = C(double(g.below(7)) - 3, double(g.below(5)) - 2);
 		L ntr = 1; for(int d = 0; d < D; ++d) if(which[std::size_t(d)]) ntr *= n[std::size_t(d)];
 		std::string const lay = std::string(LK[li % NLK]) + "->" + (mode == 2 ? "in-place" : LK[lo % NLK]);
 		describe("D=" + std::to_string(D) + " n=" + join(n, "x") + " which=" + ws + " sign=" + std::to_string(sign) + " " + lay + " mode=" + std::to_string(mode)); sig_mix(ws.c_str()); sig_mix(lay.c_str()); sig_mix(std::uint64_t(mode * 2 + (sign > 0))); for(auto q : n) sig_mix(std::uint64_t(std::min<L>(q, 3)));
-		std::string const K = std::string("C15:") + (mode == 2 ? "in-place" : (mode == 3 ? "forward-backward" : (mode == 4 ? "plan-reuse" : "out-of-place"))) + ":";
+		std::string const K = std::string("C15:") + (mode == 2 ? "in-place" : (mode == 3 ? "forward-backward" : (mode == 4 ? "plan-reuse" : (mode == 5 ? "lazy-range" : "out-of-place")))) + ":";
 		auto y = ref_dft(x, n, which, sign); double scale = 1; for(auto const& v : x) scale = std::max(scale, std::abs(v)); double const tol = 1e-10 * double(N) * scale;
 		Root RI, RO;
 		with_layout(li, RI, n, POISON, [&](auto&& in, MV const& mi) {
@@ -65,6 +66,21 @@ int main(int argc, char** argv) {
 				double err = 0; for(L k = 0; k < N; ++k) err = std::max(err, std::abs(RI.base()[mi.off[std::size_t(k)]] - y[std::size_t(k)])); if(err > tol) violation(K + "wrong", "in-place DFT differs from the direct DFT by " + std::to_string(err));
 				for(L k = 0; k < N; ++k) RI.base()[mi.off[std::size_t(k)]] = POISON; for(auto const& e : RI.s) if(!(e == POISON)) violation(K + "outside-view-written", "an element of the root outside the view was written by the in-place DFT");
 				nontrivial(N > 1 && ntr > 1); return; }
+#if C15_D >= 2  // (the lazy range does not compile for 1-D inputs: its iterator dereferences to a 0-dimensional extensions object; a compile-time limit, not a run-time behaviour)
+			if(mode == 5) {  // array constructed from / assigned the lazy range: extents of the input, elements of the direct DFT along exactly the masked dimensions, input untouched
+				int const form = int(g.below(4)); static char const* FN[] = {"construct", "assign", "dft_forward/backward", "assign-to-same-extents"}; op((std::string("lazy-range:") + FN[form] + ":" + LK[li % NLK]).c_str()); count("mode:lazy-range"); count(std::string("lazy-form:") + FN[form]);
+				int const d = sign == -1 ? multi::fft::forward : multi::fft::backward; multi::array<C, D> out;
+				switch(form) {
+				case 0: { multi::array<C, D> o2 = multi::fft::dft(which, in, d); out = std::move(o2); break; }
+				case 1: { out = multi::fft::dft(which, in, d); break; }
+				case 2: { if(sign == -1) { multi::array<C, D> o2 = multi::fft::dft_forward(which, in); out = std::move(o2); } else { multi::array<C, D> o2 = multi::fft::dft_backward(which, std::move(in)); out = std::move(o2); } break; }
+				default: { multi::array<C, D> o2(make_extensions<D>(n), OUTFILL); o2 = multi::fft::dft(which, in, d); out = std::move(o2); break; }
+				}
+				if(tuple_to_vec(out.sizes()) != n) violation(K + "extents", "the array built from the lazy range has extents " + join(tuple_to_vec(out.sizes()), "x") + ", the input has " + join(n, "x"));
+				else { double err = 0; for(L k = 0; k < N; ++k) err = std::max(err, std::abs(out.data_elements()[k] - y[std::size_t(k)])); if(err > tol) violation(K + "wrong", "the array built from the lazy range differs from the direct DFT along the masked dimensions by " + std::to_string(err)); }
+				if(!(RI.s == isnap)) violation(K + "input-modified", "the input of a lazy range was modified");
+				nontrivial(N > 1 && ntr > 1); return; }
+#endif
 			if(mode == 4) {  // plan(in, out) executed on (in2, out2): out2 must receive DFT(in2); in, in2 and the planned out stay untouched
 				with_layout(lo, RO, n, OUTFILL, [&](auto&& out, MV const&) { Root RI2, RO2; auto const osnap = RO.s;
 					with_layout(li, RI2, n, POISON, [&](auto&& in2, MV const& mi2) { std::vector<C> x2(x.size()); for(std::size_t q = 0; q < x.size(); ++q) x2[q] = x[x.size() - 1 - q] + C(1, -1); for(L k = 0; k < N; ++k) RI2.base()[mi2.off[std::size_t(k)]] = x2[std::size_t(k)]; auto const i2snap = RI2.s; auto y2 = ref_dft(x2, n, which, sign);
